@@ -142,8 +142,12 @@ def check_base(work, models):
         if exp == "ok" and r["distinct"] < 1:
             raise Machinery("could not read state counts from TLC output for %s/%s" % (m["module"], m["cfg"]))
         log("base %s/%s: %s, %d generated / %d distinct, depth %d, %.1fs" % (m["module"], m["cfg"], exp, r["generated"], r["distinct"], r["depth"], r["wall"]))
-        res.append(dict(module=m["module"], cfg=m["cfg"], expect=exp, generated=r["generated"], distinct=r["distinct"],
-                        depth=r["depth"], wall_s=round(r["wall"], 1), note=m.get("note", "")))
+        rec = dict(module=m["module"], cfg=m["cfg"], expect=exp, generated=r["generated"], distinct=r["distinct"],
+                   depth=r["depth"], wall_s=round(r["wall"], 1), note=m.get("note", ""))
+        if exp == "violation":
+            # the counter-example as a sequence of action arguments, e.g. <Declare(22) line ...> -> 22
+            rec["counterexample_actions"] = [int(x) for x in re.findall(r"^State \d+: <\w+\((\d+)\) line", r["out"], re.M)]
+        res.append(rec)
     return res
 
 
